@@ -1,0 +1,12 @@
+//! Verification hooks (cargo feature `verif_hooks`, off by default).
+//!
+//! Only re-exports and thin wrappers of private items, so that external harness
+//! crates can drive them with symbolic inputs. Nothing here changes behaviour.
+
+pub use crate::scored::{MaxScored, MinScored};
+
+#[cfg(feature = "matrix_graph")]
+pub use crate::matrix_graph::verif_hooks as matrix;
+
+pub use crate::dot::verif_hooks as dot;
+pub use crate::graph6::verif_hooks as graph6;
